@@ -604,7 +604,54 @@ fn min_balance(len: usize) -> u64 {
     solana_program::rent::Rent::default().minimum_balance(len)
 }
 
+/// `H xliqt`: increase_liquidity_by_token_amounts_v2 — carried into `x_liq` (same accounts, same checks)
+#[derive(Clone, Debug)]
+pub struct ByAmounts {
+    pub tmax_a: u64,
+    pub tmax_b: u64,
+    pub min_p: u128,
+    pub max_p: u128,
+    /// the error the handler must report before it touches the managers (price window, estimate, zero liquidity)
+    pub pre_err: Option<String>,
+}
+thread_local! {
+    static BY_AMOUNTS: std::cell::RefCell<Option<ByAmounts>> = const { std::cell::RefCell::new(None) };
+}
+
 impl World {
+    /// `H xliqt <id> <tokenMaxA> <tokenMaxB> <minSqrtPrice> <maxSqrtPrice> <feeA: bps max fut> <feeB: bps max fut> <authMode>`
+    pub fn x_liqt(&self, t: &[&str]) -> XHopOut {
+        let id: u32 = t[2].parse().unwrap();
+        let (tmax_a, tmax_b): (u64, u64) = (t[3].parse().unwrap(), t[4].parse().unwrap());
+        let (min_p, max_p): (u128, u128) = (t[5].parse().unwrap(), t[6].parse().unwrap());
+        let (fee_a, fee_b) = (parse_fee(t[7], t[8], t[9]), parse_fee(t[10], t[11], t[12]));
+        let f = |c: Option<FeeCfg>| c.map(|c| (c.bps as u64, c.max_fee)).unwrap_or((0, 0));
+        let ((ba, ma), (bb, mb)) = (f(fee_a), f(fee_b));
+        let pos = match self.pos(id) {
+            Some(p) => p,
+            None => return XHopOut { line: "err NoSuchPosition".to_string(), viols: vec![], tags: vec![] },
+        };
+        let price = { self.wp().sqrt_price };
+        let (max_da, max_db) = (tmax_a - fee_of(ba, ma, tmax_a), tmax_b - fee_of(bb, mb, tmax_b));
+        let mut pre_err = None;
+        let mut liq: u128 = 0;
+        if price < min_p || price > max_p {
+            pre_err = Some("PriceSlippageOutOfBounds".to_string());
+        } else {
+            match ::whirlpool::math::estimate_max_liquidity_from_token_amounts(price, pos.tick_lower_index, pos.tick_upper_index, max_da, max_db) {
+                Ok(0) => pre_err = Some("LiquidityZero".to_string()),
+                Ok(l) => liq = l,
+                Err(e) => pre_err = Some(format!("{:?}", e)),
+            }
+        }
+        BY_AMOUNTS.with(|b| *b.borrow_mut() = Some(ByAmounts { tmax_a, tmax_b, min_p, max_p, pre_err }));
+        let liq_s = liq.to_string();
+        let synth: Vec<&str> = vec!["H", "xliq", "2", t[2], "1", &liq_s, "0", t[7], t[8], t[9], t[10], t[11], t[12], t[13]];
+        let out = self.x_liq(&synth);
+        BY_AMOUNTS.with(|b| *b.borrow_mut() = None);
+        out
+    }
+
     pub fn x_liq(&self, t: &[&str]) -> XHopOut {
         use anchor_lang::ToAccountMetas;
         let mut viols = vec![];
@@ -657,9 +704,15 @@ impl World {
                 }
             }
         };
-        let tight = match &expect {
-            Some((ua, _)) => slack == 2 && ((inc && lim_a < *ua) || (!inc && lim_a > *ua)),
-            None => false,
+        let by = BY_AMOUNTS.with(|b| b.borrow().clone());
+        let (lim_a, lim_b) = match &by {
+            Some(b) => (b.tmax_a, b.tmax_b),
+            None => (lim_a, lim_b),
+        };
+        let tight = match (&expect, &by) {
+            (Some((ua, ub)), Some(_)) => *ua > lim_a || *ub > lim_b,
+            (Some((ua, _)), None) => slack == 2 && ((inc && lim_a < *ua) || (!inc && lim_a > *ua)),
+            (None, _) => false,
         };
         // ---- accounts
         let t22a = ver == 2 && t[7] != "65535";
@@ -708,7 +761,13 @@ impl World {
                 tick_array_upper: ta_u,
             };
             let m = acc.to_account_metas(None).iter().map(Meta::from).collect();
-            let d = if inc {
+            let d = if let Some(b) = &by {
+                ::whirlpool::instruction::IncreaseLiquidityByTokenAmountsV2 {
+                    method: ::whirlpool::instructions::IncreaseLiquidityMethod::ByTokenAmounts { token_max_a: b.tmax_a, token_max_b: b.tmax_b, min_sqrt_price: b.min_p, max_sqrt_price: b.max_p },
+                    remaining_accounts_info: None,
+                }
+                .data()
+            } else if inc {
                 ::whirlpool::instruction::IncreaseLiquidityV2 { liquidity_amount: liq, token_max_a: lim_a, token_max_b: lim_b, remaining_accounts_info: None }.data()
             } else {
                 ::whirlpool::instruction::DecreaseLiquidityV2 { liquidity_amount: liq, token_min_a: lim_a, token_min_b: lim_b, remaining_accounts_info: None }.data()
@@ -754,6 +813,11 @@ impl World {
                 let name = err_name(e, &out.logs);
                 if auth_mode != 0 {
                     tags.push("liq_unauthorized_rejected");
+                } else if let Some(pe) = by.as_ref().and_then(|b| b.pre_err.clone()) {
+                    if name != pe {
+                        viols.push(format!("C08 increase_liquidity_by_token_amounts_v2 must fail with {} (price window / estimate), the handler gives {}", pe, name));
+                    }
+                    tags.push("liqt_pre_rejected");
                 } else {
                     match &expect {
                         Some(_) if tight => {
@@ -776,6 +840,12 @@ impl World {
             Ok(()) => {
                 if auth_mode != 0 {
                     viols.push(format!("C04 the liquidity instruction succeeded although the position owner did not sign (mode {})", auth_mode));
+                }
+                if let Some(pe) = by.as_ref().and_then(|b| b.pre_err.clone()) {
+                    viols.push(format!("C08 increase_liquidity_by_token_amounts_v2 succeeded although it must fail with {}", pe));
+                }
+                if by.is_some() {
+                    tags.push("liqt_ok");
                 }
                 match (&ref_res, &expect) {
                     (Ok((da, db)), Some((ua, ub))) => {
@@ -1369,6 +1439,314 @@ impl World {
                             viols.push("C18 reset_position_range did not reset the growth checkpoints".to_string());
                         }
                         tags.push("pos_reset_ok");
+                        "ok".to_string()
+                    }
+                }
+            }
+        };
+        XHopOut { line, viols, tags }
+    }
+}
+
+// ================================================================================================
+// C12 / C18 / C16 / C01: reposition_liquidity_v2 (Pinocchio) through the entrypoint
+//   H xrepo <id> <newLower> <newUpper> <newLiquidity> <slackMode> <feeA: bps max fut> <feeB: bps max fut> <authMode>
+// = withdraw ALL liquidity of the position, re-range it (owed fees and rewards kept), deposit newLiquidity
+//   into the new range, and settle only the NET token movement per token.
+// slackMode: 0 loose limits; 1 exactly the resulting amounts; 2 one unit too tight on the A side
+//            (min of the withdrawal when the owner nets tokens out, max of the deposit otherwise).
+// Read-only on the history.
+// ================================================================================================
+impl World {
+    pub fn x_repo(&self, t: &[&str]) -> XHopOut {
+        use anchor_lang::ToAccountMetas;
+        let mut viols = vec![];
+        let mut tags: Vec<&'static str> = vec![];
+        let id: u32 = t[2].parse().unwrap();
+        let (nlo, nhi): (i64, i64) = (t[3].parse().unwrap(), t[4].parse().unwrap());
+        let new_liq: u128 = t[5].parse().unwrap();
+        let slack: u8 = t[6].parse().unwrap();
+        let (fee_a, fee_b) = (parse_fee(t[7], t[8], t[9]), parse_fee(t[10], t[11], t[12]));
+        let auth_mode: u8 = t[13].parse().unwrap();
+        let pos0 = match self.pos(id) {
+            Some(p) => p,
+            None => return XHopOut { line: "err NoSuchPosition".to_string(), viols, tags },
+        };
+        let ts = self.wp().tick_spacing;
+        let in_i32 = |x: i64| x.clamp(i32::MIN as i64, i32::MAX as i64) as i32;
+        let (nlo32, nhi32) = (in_i32(nlo), in_i32(nhi));
+        let range_ok = nlo < nhi && Tick::check_is_usable_tick(nlo32, ts) && Tick::check_is_usable_tick(nhi32, ts);
+        // arrays of the old and (if addressable) the new range
+        let mut base = crate::hist_oracle::clone_world(self);
+        let (ls, us) = (base.array_start_for(pos0.tick_lower_index), base.array_start_for(pos0.tick_upper_index));
+        base.ensure_array(ls);
+        base.ensure_array(us);
+        let (nls, nus) = if range_ok { (base.array_start_for(nlo32), base.array_start_for(nhi32)) } else { (ls, us) };
+        base.ensure_array(nls);
+        base.ensure_array(nus);
+        let f = |c: Option<FeeCfg>| c.map(|c| (c.bps as u64, c.max_fee)).unwrap_or((0, 0));
+        let ((ba, ma), (bb, mb)) = (f(fee_a), f(fee_b));
+        // ---- reference: the Pinocchio managers on a copy
+        let mut reference = crate::hist_oracle::clone_world(&base);
+        reference.vault_a = u128::MAX / 4;
+        reference.vault_b = u128::MAX / 4;
+        // (decA, decB, incA, incB) or the error the instruction must report
+        let ref_res: Result<(u64, u64, u64, u64), String> = std::panic::catch_unwind(std::panic::AssertUnwindSafe(|| {
+            if new_liq == 0 {
+                return Err("LiquidityZero".to_string());
+            }
+            let (da, db) = if pos0.liquidity == 0 {
+                (0, 0)
+            } else {
+                let s = reference.modify_pub(id, pos0.liquidity, false, true)?;
+                let mut it = s.split(' ');
+                (it.next().unwrap().parse::<u64>().unwrap(), it.next().unwrap().parse::<u64>().unwrap())
+            };
+            Ok((da, db, 0, 0))
+        }))
+        .unwrap_or_else(|_| Err("Panic".to_string()));
+        // limits are fixed below from the expected amounts; compute the rest of the reference first with loose limits
+        let after_dec = ref_res.clone();
+        let ref_full: Result<(u64, u64, u64, u64), String> = after_dec.and_then(|(da, db, _, _)| {
+            // re-range (owed amounts are kept)
+            let p = reference.pos(id).unwrap();
+            if (nlo, nhi) == (p.tick_lower_index as i64, p.tick_upper_index as i64) {
+                return Err("SameTickRangeNotAllowed".to_string());
+            }
+            if !range_ok {
+                return Err("InvalidTickIndex".to_string());
+            }
+            if ts >= 32768 && !(nlo32 == (-443636 / ts as i32) * ts as i32 && nhi32 == (443636 / ts as i32) * ts as i32) {
+                return Err("FullRangeOnlyPool".to_string());
+            }
+            let mut q = p;
+            q.tick_lower_index = nlo32;
+            q.tick_upper_index = nhi32;
+            q.fee_growth_checkpoint_a = 0;
+            q.fee_growth_checkpoint_b = 0;
+            for i in 0..3 {
+                q.reward_infos[i].growth_inside_checkpoint = 0;
+            }
+            let mut d = vec![];
+            q.try_serialize(&mut d).unwrap();
+            reference.positions.insert(id, d);
+            let s = std::panic::catch_unwind(std::panic::AssertUnwindSafe(|| reference.modify_pub(id, new_liq, true, true))).unwrap_or_else(|_| Err("Panic".to_string()))?;
+            let mut it = s.split(' ');
+            Ok((da, db, it.next().unwrap().parse::<u64>().unwrap(), it.next().unwrap().parse::<u64>().unwrap()))
+        });
+        // per token: (amount moved between owner and vault on the owner's side, fee, from owner?, vault delta)
+        let net = |bps: u64, max: u64, dec: u64, inc: u64| -> Option<(u64, u64, bool)> {
+            if dec > inc {
+                let d = dec - inc;
+                Some((d, fee_of(bps, max, d), false))
+            } else {
+                let d = inc - dec;
+                let incl = included_of(bps, max, d)?;
+                Some((incl, incl - d, true))
+            }
+        };
+        let expect = ref_full.as_ref().ok().and_then(|(da, db, ia, ib)| Some((net(ba, ma, *da, *ia)?, net(bb, mb, *db, *ib)?)));
+        // ---- limits
+        let (mut min_a, mut min_b, mut max_a, mut max_b) = (0u64, 0u64, u64::MAX, u64::MAX);
+        if let (Ok((da, db, ia, ib)), Some(((_, fa, from_a), (_, fb, from_b)))) = (&ref_full, &expect) {
+            let (xa, xb) = (da - fee_of(ba, ma, *da), db - fee_of(bb, mb, *db));
+            let (ya, yb) = (ia.saturating_add(if *from_a { *fa } else { 0 }), ib.saturating_add(if *from_b { *fb } else { 0 }));
+            if slack >= 1 {
+                min_a = xa;
+                min_b = xb;
+                max_a = ya;
+                max_b = yb;
+            }
+            if slack == 2 {
+                if *from_a {
+                    max_a = ya.saturating_sub(1);
+                } else {
+                    min_a = xa.saturating_add(1);
+                }
+            }
+        }
+        let tight = slack == 2 && expect.is_some() && {
+            let ((_, _, from_a), _) = expect.unwrap();
+            let (da, _, ia, _) = ref_full.clone().unwrap();
+            if from_a {
+                ia.saturating_add(expect.unwrap().0 .1) > max_a
+            } else {
+                da - fee_of(ba, ma, da) < min_a
+            }
+        };
+        // ---- fixture
+        let t22a = t[7] != "65535";
+        let t22b = t[10] != "65535";
+        let funds = u64::MAX / 4;
+        let mut fx = Fx::from_world(&base, fee_a, fee_b, t22a, t22b, funds);
+        let pmint = k(0x61, id as u8);
+        let position = Pubkey::find_program_address(&[b"position", pmint.as_ref()], &::whirlpool::ID).0;
+        let ptoken = k(0x62, id as u8);
+        let stranger = k(0x63, 9);
+        let mut pdata = base.positions[&id].clone();
+        pdata[8..40].copy_from_slice(fx.pool.as_ref());
+        pdata[40..72].copy_from_slice(pmint.as_ref());
+        let pos_units = *base.pos_rent.get(&id).unwrap_or(&2);
+        fx.bank.set(position, ::whirlpool::ID, min_balance(pdata.len()) + pos_units as u64 * TICK_RENT, pdata);
+        fx.bank.set(pmint, anchor_spl::token::ID, 1_000_000, crate::fixture::mint_data(false, 0, None, 0));
+        fx.bank.set(ptoken, anchor_spl::token::ID, 2_000_000, crate::fixture::token_account_data(false, &pmint, &fx.trader, 1, false));
+        fx.bank.set(stranger, crate::svm::system_id(), 1_000_000_000, vec![]);
+        fx.bank.set_program(crate::svm::system_id());
+        let mut starts = vec![ls, us, nls, nus];
+        starts.sort();
+        starts.dedup();
+        for st in &starts {
+            let key = crate::fixture::tick_array_pda(&fx.pool, *st);
+            let mut a = fx.bank.get(&key);
+            let dynamic = base.arrays[st].dynamic;
+            a.lamports = if dynamic { min_balance(148) + *base.array_rent.get(st).unwrap_or(&0) as u64 * TICK_RENT } else { min_balance(a.data.len()) };
+            fx.bank.accts.insert(key, a);
+        }
+        let bank0 = fx.bank.clone();
+        let signer_key = if auth_mode == 1 { stranger } else { fx.trader };
+        let acc = ::whirlpool::accounts::RepositionLiquidityV2 {
+            whirlpool: fx.pool,
+            token_program_a: fx.prog_a,
+            token_program_b: fx.prog_b,
+            memo_program: anchor_spl::memo::ID,
+            position_authority: signer_key,
+            funder: fx.trader,
+            position,
+            position_token_account: ptoken,
+            token_mint_a: fx.mint_a,
+            token_mint_b: fx.mint_b,
+            token_owner_account_a: fx.trader_a,
+            token_owner_account_b: fx.trader_b,
+            token_vault_a: fx.vault_a,
+            token_vault_b: fx.vault_b,
+            existing_tick_array_lower: crate::fixture::tick_array_pda(&fx.pool, ls),
+            existing_tick_array_upper: crate::fixture::tick_array_pda(&fx.pool, us),
+            new_tick_array_lower: crate::fixture::tick_array_pda(&fx.pool, nls),
+            new_tick_array_upper: crate::fixture::tick_array_pda(&fx.pool, nus),
+            system_program: crate::svm::system_id(),
+        };
+        let mut metas: Vec<Meta> = acc.to_account_metas(None).iter().map(Meta::from).collect();
+        let data = ::whirlpool::instruction::RepositionLiquidityV2 {
+            new_tick_lower_index: nlo32,
+            new_tick_upper_index: nhi32,
+            method: ::whirlpool::instructions::RepositionLiquidityMethod::ByLiquidity {
+                new_liquidity_amount: new_liq,
+                existing_range_token_min_a: min_a,
+                existing_range_token_min_b: min_b,
+                new_range_token_max_a: max_a,
+                new_range_token_max_b: max_b,
+            },
+            remaining_accounts_info: None,
+        }
+        .data();
+        if auth_mode == 2 {
+            // the authority slot (index 4) loses its signature; signatures are per key, so the funder (index 5)
+            // must be another key: the stranger pays the rent top-up if one is needed
+            metas[4].signer = false;
+            metas[5].key = stranger;
+            metas[5].signer = true;
+        }
+        let (res, out) = fx.bank.execute(&metas, &data);
+        let bal = |b: &Bank, key: &Pubkey| token_amount(&b.data(key));
+        let line = match &res {
+            Err(e) => {
+                let name = err_name(e, &out.logs);
+                if fx.bank.accts != bank0.accts {
+                    viols.push("a failed reposition instruction changed account state".to_string());
+                }
+                if auth_mode != 0 {
+                    tags.push("repo_unauthorized_rejected");
+                } else {
+                    match (&ref_full, &expect) {
+                        (Err(want), _) => {
+                            if &name != want && !(want == "Panic") {
+                                // error names of the manager level and of the instruction agree for the checks modelled here
+                                viols.push(format!("C12/C18 reposition fails with {} but the step-by-step computation fails with {}", name, want));
+                            }
+                            tags.push("repo_both_fail");
+                        }
+                        (Ok(_), Some(_)) if tight => {
+                            if name != "TokenMinSubceeded" && name != "TokenMaxExceeded" {
+                                viols.push(format!("C16/C08 reposition with a limit one unit too tight must fail on that limit, the handler gives {}", name));
+                            }
+                            tags.push("repo_limit_rejected");
+                        }
+                        (Ok((da, db, ia, ib)), Some(((ta, _, from_a), (tb, _, from_b)))) => {
+                            let short = (*from_a && *ta > funds) || (*from_b && *tb > funds) || (!*from_a && (da - ia) > bal(&bank0, &fx.vault_a)) || (!*from_b && (db - ib) > bal(&bank0, &fx.vault_b));
+                            if short && name == "Code(1)" {
+                                tags.push("repo_token_insufficient_funds");
+                            } else {
+                                viols.push(format!("C12 reposition fails with {} but the step-by-step computation succeeds ({:?})", name, ref_full));
+                            }
+                        }
+                        (Ok(_), None) => tags.push("repo_fee_calculation_fails"),
+                    }
+                }
+                format!("err {}", name)
+            }
+            Ok(()) => {
+                if auth_mode != 0 {
+                    viols.push(format!("C04 reposition succeeded although the position owner did not sign (mode {})", auth_mode));
+                }
+                match (&ref_full, &expect) {
+                    (Ok((da, db, ia, ib)), Some(((ta, fa, from_a), (tb, fb, from_b)))) => {
+                        if tight {
+                            viols.push("C16/C08 a reposition limit is one unit too tight but the instruction succeeded".to_string());
+                        }
+                        // vaults: net of withdrawal and deposit
+                        let v = |b0: u64, b1: u64| b1 as i128 - b0 as i128;
+                        let (dva, dvb) = (v(bal(&bank0, &fx.vault_a), bal(&fx.bank, &fx.vault_a)), v(bal(&bank0, &fx.vault_b), bal(&fx.bank, &fx.vault_b)));
+                        if dva != *ia as i128 - *da as i128 || dvb != *ib as i128 - *db as i128 {
+                            viols.push(format!("C01/C16 reposition moved the vaults by ({}, {}) but deposit minus withdrawal is ({}, {})", dva, dvb, *ia as i128 - *da as i128, *ib as i128 - *db as i128));
+                        }
+                        // owner: pays the fee-included net deposit, or receives the net withdrawal minus its fee
+                        let (dta, dtb) = (v(bal(&bank0, &fx.trader_a), bal(&fx.bank, &fx.trader_a)), v(bal(&bank0, &fx.trader_b), bal(&fx.bank, &fx.trader_b)));
+                        let want_a = if *from_a { -(*ta as i128) } else { *ta as i128 - *fa as i128 };
+                        let want_b = if *from_b { -(*tb as i128) } else { *tb as i128 - *fb as i128 };
+                        if dta != want_a || dtb != want_b {
+                            viols.push(format!("C16 reposition: the owner's balances moved by ({}, {}); expected ({}, {})", dta, dtb, want_a, want_b));
+                        }
+                        // accounts = the step-by-step reference
+                        let p_got = fx.bank.data(&position);
+                        let p_ref = &reference.positions[&id];
+                        if p_got[72..] != p_ref[72..] {
+                            viols.push("C12/C18 the position after reposition differs from withdraw-all + re-range + deposit".to_string());
+                        }
+                        let (w_ref, w_got) = (reference.wp(), fx.wp());
+                        if { w_ref.liquidity } != { w_got.liquidity } || (0..3).any(|i| { w_ref.reward_infos[i].growth_global_x64 } != { w_got.reward_infos[i].growth_global_x64 }) || w_ref.reward_last_updated_timestamp != w_got.reward_last_updated_timestamp {
+                            viols.push("C12 the pool after reposition differs from withdraw-all + re-range + deposit".to_string());
+                        }
+                        for st in &starts {
+                            let key = crate::fixture::tick_array_pda(&fx.pool, *st);
+                            let got = fx.bank.get(&key);
+                            let racc = &reference.arrays[st];
+                            let rdata = racc.data.borrow();
+                            if racc.dynamic {
+                                let n = u128::from_le_bytes(rdata[44..60].try_into().unwrap()).count_ones() as usize;
+                                let used = 148 + 112 * n;
+                                if got.data.len() != used {
+                                    viols.push(format!("C13 dynamic tick array at {}: account length {} after reposition, 148 + 112 x {} = {}", st, got.data.len(), n, used));
+                                } else if got.data[44..used] != rdata[44..used] {
+                                    viols.push(format!("C12/C13 dynamic tick array at {} differs from the step-by-step result", st));
+                                }
+                                if got.lamports < min_balance(got.data.len()) {
+                                    viols.push(format!("C13 dynamic tick array at {} is not rent exempt after reposition", st));
+                                }
+                            } else {
+                                let n = rdata.len();
+                                if got.data.len() != n || got.data[..n - 32] != rdata[..n - 32] {
+                                    viols.push(format!("C12 fixed tick array at {} differs from the step-by-step result", st));
+                                }
+                            }
+                        }
+                        if fx.bank.get(&position).lamports < min_balance(216) {
+                            viols.push("C13 the position account is not rent exempt after reposition".to_string());
+                        }
+                        tags.push(if ba > 0 || bb > 0 { "repo_ok_with_transfer_fee" } else { "repo_ok" });
+                        format!("ok {} {} {} {} {} {} {} {} {} {}", ta, fa, if *from_a { 1 } else { 0 }, tb, fb, if *from_b { 1 } else { 0 }, da, db, ia, ib)
+                    }
+                    _ => {
+                        viols.push(format!("C12 reposition succeeds but the step-by-step computation fails ({:?})", ref_full.as_ref().err()));
                         "ok".to_string()
                     }
                 }
